@@ -110,10 +110,10 @@ impl MainState {
                 nick_post(*old(state), *final(state), my_nick(*old(conn_state)), sk(nick), final(conn_state).user_state.source)
                 && final(conn_state).user_state.nick == Some(sk(nick))
                 && final(conn_state).user_state.source@ == source_spec(ConnUserState { nick: Some(sk(nick)), ..old(conn_state).user_state }),
-            sym(*final(state)), // @prop C04
+            sym(*final(state)), // @prop C04,C05
             chans_wf(*final(state)), // @prop C04,C08
             no_empty_chan(*final(state)), // @prop C16
-            wallops_wf(*final(state)), // @prop C11,C06
+            wallops_wf(*final(state)), // @prop C11,C06,C05
             counters_wf(*final(state)), // @prop C19
             senders_distinct(*final(state)), // @prop C02,C01
 //@attr #[verifier::loop_isolation(false)]
@@ -165,7 +165,7 @@ impl MainState {
                             (if o.users@[a].channels@.contains(c) { chan_renamed(o.channels@[c], #[trigger] state.channels@[c], a, b) } else { state.channels@[c] == o.channels@[c] }) by {
                             if chans.contains(c) { assert(done.contains(c)); } else { assert(!done.contains(c)); }
                         }
-                        assert(state.wallops_users@ =~= rekey(o.wallops_users@, a, b)); // @prop C15,C11,C06
+                        assert(state.wallops_users@ =~= rekey(o.wallops_users@, a, b)); // @prop C15,C11,C06,C05
                         assert(nick_post(o, *state, a, b, new_src)); // @prop C15
                         lemma_nick_wf(o, *state, a, b, new_src);
                     }
